@@ -138,6 +138,31 @@ def run(ctx):
   ctx.check(bool(rec), 'C19.exact-object', construct(rg), 'registering a method registers its class too', 'the parent class of a method is no longer registered', rg.loc(), instance='parent-class')
 
   import_aliases(ctx, 'C19.unique-names')
+  from .c13 import method_detection
+  method_detection(ctx, 'C19.methods')
+  from .common import method_selector_rule
+  # ---- C19.import-source: which import statement a selector is attributed to
+  isf = c.methods.get('_import_source')
+  if isf is None:
+    raise AnalysisError('ParseContext._import_source vanished')
+  okp = False
+  why = 'no loop over zip(module parts, selector components)'
+  for lp in [n for n in walk_local(isf.node) if isinstance(n, ast.For) and isinstance(n.iter, ast.Call) and u(n.iter.func) == 'zip']:
+    brk = [s_ for s_ in lp.body if isinstance(s_, ast.If) and isinstance(s_.test, ast.Compare) and isinstance(s_.test.ops[0], ast.NotEq)
+           and any(isinstance(b, ast.Break) for b in s_.body)]
+    inc = [s_ for s_ in lp.body if isinstance(s_, ast.AugAssign) and isinstance(s_.op, ast.Add)]
+    if brk and inc and lp.body.index(brk[0]) < lp.body.index(inc[0]):
+      okp = True
+    else:
+      why = 'the loop does not stop at the first mismatch'
+  if not okp:
+    sums = [x for x in walk_local(isf.node) if isinstance(x, ast.Call) and u(x.func) == 'sum']
+    if sums:
+      why = 'matches are counted with sum(...) over all positions, so components that agree again after a mismatch are counted too'
+  ctx.check(okp, 'C19.import-source', construct(isf),
+            'the module prefix attributed to a plain import is the longest *common prefix* of module path and selector (stops at the first mismatch)',
+            'the import source of a selector is not computed as a common prefix (%s): with `import a.x.c` and `import a.y.c` the config string '
+            'attributes the configurable to a sibling module and the emitted selector resolves to a different object' % why, isf.loc(), instance='common-prefix')
 
 
 def import_aliases(ctx, rule):
